@@ -421,6 +421,10 @@ def _backoff_state_after(ex, q, pid, bf):
     ins = [e for e in q.events if e.kind == 'map' and e.args[0].s == 'backoff' and e.name == 'insert']
     if ins:
         st = ins[-1].args[2]
+        # a `&mut` to the freshly inserted value may have been written through afterwards (`.or_insert_with(..).update(..)`)
+        cells = [e for e in q.events if e.kind == 'entry-cell' and e.name == 'backoff']
+        if cells:
+            st = ex.deref(q, cells[-1].args[1])
         a, b = ex.project(st, ('field', ia, 'usize')), ex.project(st, ('field', ib, 'std::time::Instant'))
         return a, b, None, True
     # updated in place through entry.get_mut(): the entry-val cell
